@@ -95,6 +95,9 @@ func randomGraph(r *vh.Rng) graph {
 			if i == j || g.Nodes[j].Kind == "method" || !r.Chance(p, n) {
 				continue
 			}
+			if (g.Nodes[i].Kind == "func" || g.Nodes[i].Kind == "method") && j < i {
+				continue // class F2
+			}
 			back := rank[j] > rank[i]
 			switch {
 			case !back, mode >= 8:
